@@ -468,7 +468,7 @@ func origins(v ssa.Value, o originOpts) []Origin {
 						return
 					}
 				}
-				out = append(out, Origin{Kind: "call", Val: x, Fn: f, Res: x.Index})
+				out = append(out, Origin{Kind: "call", Val: x, Fn: devirt(c.Common(), f), Res: x.Index})
 				return
 			}
 			if ta, ok := x.Tuple.(*ssa.TypeAssert); ok {
@@ -486,7 +486,7 @@ func origins(v ssa.Value, o originOpts) []Origin {
 					return
 				}
 			}
-			out = append(out, Origin{Kind: "call", Val: x, Fn: f, Res: 0})
+			out = append(out, Origin{Kind: "call", Val: x, Fn: devirt(x.Common(), f), Res: 0})
 		case *ssa.UnOp:
 			if x.Op == token.MUL {
 				switch a := x.X.(type) {
@@ -500,6 +500,10 @@ func origins(v ssa.Value, o originOpts) []Origin {
 						walk(st.Val)
 					}
 				case *ssa.FieldAddr:
+					if src := setOnceSource(x); src != nil {
+						walk(src)
+						return
+					}
 					out = append(out, Origin{Kind: "field", Val: x, Field: fieldVar(a.X.Type(), a.Field), Base: a.X})
 				case *ssa.Global:
 					out = append(out, Origin{Kind: "global", Val: a})
@@ -529,6 +533,10 @@ func origins(v ssa.Value, o originOpts) []Origin {
 			}
 			out = append(out, Origin{Kind: "other", Val: x})
 		case *ssa.Field:
+			if src := setOnceSource(x); src != nil {
+				walk(src)
+				return
+			}
 			out = append(out, Origin{Kind: "field", Val: x, Field: fieldVar(x.X.Type(), x.Field), Base: x.X})
 		case *ssa.BinOp:
 			if o.binops {
@@ -628,4 +636,33 @@ func setOnceBefore(al *ssa.Alloc, st *ssa.Store, load ssa.Instruction) bool {
 		work = append(work, b.Succs...)
 	}
 	return true
+}
+
+// devirt: a call through an interface the pinned tree does not have (a parameter narrowed to the
+// methods a function really uses) on a value whose concrete type is in sight — the argument of the
+// inlined helper — is a call of that type's method.
+func devirt(cc *ssa.CallCommon, f *types.Func) *types.Func {
+	if !cc.IsInvoke() {
+		return f
+	}
+	nt, ok := cc.Value.Type().(*types.Named)
+	if !ok || nt.Obj().Pkg() == nil || !isRepoPkg(nt.Obj().Pkg().Path()) || baselineTypes[nt.Obj().Pkg().Path()+"\t"+nt.Obj().Name()] {
+		return f
+	}
+	mi, ok := canon(cc.Value).(*ssa.MakeInterface)
+	if !ok {
+		if m2, ok2 := cc.Value.(*ssa.MakeInterface); ok2 {
+			mi = m2
+		} else {
+			return f
+		}
+	}
+	sel := types.NewMethodSet(mi.X.Type()).Lookup(cc.Method.Pkg(), cc.Method.Name())
+	if sel == nil {
+		return f
+	}
+	if m, ok := sel.Obj().(*types.Func); ok {
+		return m
+	}
+	return f
 }
